@@ -14,6 +14,7 @@ import (
 	"strconv"
 	"strings"
 	"time"
+	"unsafe"
 
 	gsync "verif/harness/instr/gsyncx"
 	"verif/harness/internal/hx"
@@ -61,6 +62,36 @@ type gImpl struct {
 func (g *gImpl) Reset() {}
 
 func chanPtr(c any) uintptr { return reflect.ValueOf(c).Pointer() }
+
+// chanOf finds the channel behind the object handed to a pointer update: the object is either a
+// *chan struct{} (the pinned representation) or a pointer to a struct holding a chan struct{}
+// field (e.g. a "gate" record) — a representation change that does not alter behaviour.
+func chanOf(p any) (chan struct{}, bool) {
+	if c, ok := p.(*chan struct{}); ok {
+		if c == nil {
+			return nil, false
+		}
+		return *c, true
+	}
+	v := reflect.ValueOf(p)
+	if !v.IsValid() || v.Kind() != reflect.Pointer || v.IsNil() {
+		return nil, false
+	}
+	e := v.Elem()
+	if e.Kind() != reflect.Struct {
+		return nil, false
+	}
+	for i := 0; i < e.NumField(); i++ {
+		f := e.Field(i)
+		if f.Kind() == reflect.Chan && f.Type() == reflect.TypeOf((chan struct{})(nil)) {
+			c := reflect.NewAt(f.Type(), unsafe.Pointer(f.UnsafeAddr())).Elem().Interface().(chan struct{})
+			if c != nil {
+				return c, true
+			}
+		}
+	}
+	return nil, false
+}
 
 func (g *gImpl) idOf(ch chan struct{}) int {
 	p := chanPtr(ch)
@@ -152,8 +183,8 @@ func (g *gImpl) startCase(ws []string) string {
 	sched.OnOp = func(op *sched.Op) {
 		// set-up operations (outside the scheduled threads): learn the sentinel channel
 		if !sentinelSeen && op.Kind == "ptr-update" {
-			if p, ok := op.B.(*chan struct{}); ok && p != nil {
-				g.idOf(*p) // id 0
+			if c, ok := chanOf(op.B); ok {
+				g.idOf(c) // id 0
 				sentinelSeen = true
 			}
 		}
@@ -245,8 +276,8 @@ func (g *gImpl) observe(op *sched.Op, tid int) {
 			g.count = v
 		}
 	case "ptr-update":
-		if p, ok := op.B.(*chan struct{}); ok && p != nil {
-			id := g.idOf(*p) // allocate the id at the operation, whether or not it installs
+		if c, ok := chanOf(op.B); ok {
+			id := g.idOf(c) // allocate the id at the operation, whether or not it installs
 			if op.OK {
 				g.wchan = id
 			}
